@@ -81,3 +81,43 @@ def hdi_rejects(vc):
     f = vc.real("fraction", sample=lambda r: r.choice([0.0, 1.0, -0.5, 1.5, 2.0]))
     vc.assume(vc.Or(f <= 0, f >= 1))
     vc.expect_raise("bad_fraction_raises", lambda: vc.callf(HDI, "sample_hdi", x, f))
+
+
+# ---- bounded layer: exact membership of the end points, samples with huge outliers, integer samples -------------------------
+from pyvc.vc import bounded
+
+
+@bounded("C13", "hdi_exact_native", native_runs=40)
+def hdi_exact_native(vc):
+    """the end points are ELEMENTS of the sample (bit for bit: they are gathered, not recomputed), L = floor(f n) places apart
+    in sorted order, and no window of L+1 sorted points is shorter -- also when the sample holds outliers of magnitude 1e16
+    next to values of order one, or is given with an integer dtype"""
+    import numpy as np
+    from inference.pdf.hdi import sample_hdi
+    seed = vc.int("seed", lo=0, hi=10 ** 6)
+    rng = np.random.default_rng(seed)
+    n = int(rng.integers(3, 40))
+    kind = vc.choice("sample", ["normal", "outliers", "integers", "small_integers_int8"])
+    if kind == "normal":
+        x = rng.normal(size=n)
+    elif kind == "outliers":
+        x = rng.normal(size=n)
+        x[rng.integers(0, n)] = -10.0 ** rng.uniform(12, 16)
+        x[rng.integers(0, n)] = 10.0 ** rng.uniform(12, 16)
+    elif kind == "integers":
+        x = rng.integers(-50, 50, size=n)
+    else:
+        x = rng.integers(-120, 127, size=n).astype(np.int8)
+    f = float(rng.choice([0.3, 0.5, 0.68, 0.7, 0.9]))
+    L = int(f * n)
+    if L < 1 or L >= n:
+        from pyvc.vc import SkipCase
+        raise SkipCase()
+    keep = x.copy()
+    lo, hi = sample_hdi(x, f)
+    xs = np.sort(x.astype(float))
+    widths = xs[L:] - xs[:-L]
+    vc.ensures("end_points_are_sample_values", bool(np.any(xs == float(lo))) and bool(np.any(xs == float(hi))))
+    vc.ensures("end_points_are_L_places_apart", bool(np.any((xs[:-L] == float(lo)) & (xs[L:] == float(hi)))))
+    vc.ensures("no_shorter_window", float(hi) - float(lo) <= widths.min())
+    vc.ensures("caller_array_untouched", bool(np.array_equal(x, keep)) and x.dtype == keep.dtype)
